@@ -14,6 +14,7 @@ import (
 	"runtime/debug"
 	"sort"
 	"strings"
+	"time"
 
 	gonnx "github.com/advancedclimatesystems/gonnx"
 	"github.com/advancedclimatesystems/gonnx/onnx"
@@ -22,8 +23,8 @@ import (
 	"google.golang.org/protobuf/proto"
 	"gorgonia.org/tensor"
 
-	"verifsim/rng"
 	"verifsim/evid"
+	"verifsim/rng"
 	"verifsim/val"
 )
 
@@ -48,47 +49,48 @@ type nodeTrace struct {
 
 // callResult is what a task observed for one call.
 type callResult struct {
-	Kind      string // ok | error | panic
-	Err       string
-	Out       map[string]*val.V
-	OutLate   map[string]*val.V // the same output objects, read again after the whole world has run
-	InBefore  map[string]*val.V
-	InAfter   map[string]*val.V
-	WChanged  string // first weight found changed after the call (serial mode)
-	PChanged  bool   // protobuf changed after the call (serial mode)
-	Trace     []nodeTrace
-	FaultHit  bool
-	Intro     string
-	LoadW     map[string]*val.V
-	flavour   map[string]string
-	inObjs    map[string]tensor.Tensor
-	outObjs   map[string]tensor.Tensor
-	Skipped   bool
+	Kind     string // ok | error | panic
+	Err      string
+	Out      map[string]*val.V
+	OutLate  map[string]*val.V // the same output objects, read again after the whole world has run
+	InBefore map[string]*val.V
+	InAfter  map[string]*val.V
+	WChanged string // first weight found changed after the call (serial mode)
+	PChanged bool   // protobuf changed after the call (serial mode)
+	Trace    []nodeTrace
+	FaultHit bool
+	Intro    string
+	LoadW    map[string]*val.V
+	flavour  map[string]string
+	inObjs   map[string]tensor.Tensor
+	outObjs  map[string]tensor.Tensor
+	Skipped  bool
 	// inputsEditedLater: the caller has overwritten the tensors it passed to this call (buffer re-use); whatever
 	// this call returned may legitimately share their memory, so the late re-read of its outputs proves nothing
 	inputsEditedLater bool
 }
 
 type liveModel struct {
-	spec   *ModelSpec
-	m      *gonnx.Model
-	mp     *onnx.ModelProto
-	params gonnx.Tensors
-	w0     map[string]*val.V
-	mp0    *onnx.ModelProto
-	names  []string
+	spec    *ModelSpec
+	m       *gonnx.Model
+	mp      *onnx.ModelProto
+	params  gonnx.Tensors
+	w0      map[string]*val.V
+	mp0     *onnx.ModelProto
+	names   []string
 	loadErr string
 }
 
 // executor runs one world.
 type executor struct {
-	c        *Case
-	models   []*liveModel
-	attrib   bool
-	sch      *sched
-	serial   *callCtx
-	taskCtx  []*callCtx
-	results  [][]callResult
+	ncalls     int
+	c          *Case
+	models     []*liveModel
+	attrib     bool
+	sch        *sched
+	serial     *callCtx
+	taskCtx    []*callCtx
+	results    [][]callResult
 	checkState bool // per-call weight/proto/caller-tensor checks (serial engines)
 	copies     map[[2]int]*gonnx.Model
 }
@@ -388,6 +390,10 @@ func scribble(m *gonnx.Model) {
 
 // doCall executes call ci of task ti. It is the body of the simulated caller.
 func (x *executor) doCall(ti, ci int, ctx *callCtx) {
+	if cl := x.c.World.Clock; len(cl) > 0 {
+		verifsim.AdvanceClock(time.Duration(cl[x.ncalls%len(cl)]))
+		x.ncalls++
+	}
 	call := &x.c.World.Tasks[ti].Calls[ci]
 	res := &x.results[ti][ci]
 	if call.Kind == KLoad {
@@ -646,17 +652,17 @@ func overwrite(t tensor.Tensor, v *val.V) (done bool) {
 
 // worldRun is everything one execution of a world produced.
 type worldRun struct {
-	results [][]callResult
-	models  []*liveModel
-	sched   *Schedule
-	steps   int64
-	yields  []int64
+	results          [][]callResult
+	models           []*liveModel
+	sched            *Schedule
+	steps            int64
+	yields           []int64
 	preemptInsideRun int64
-	switches int64
-	aborted bool
-	overlapOps map[string]int64
-	holds int64
-	finalWChanged []string
+	switches         int64
+	aborted          bool
+	overlapOps       map[string]int64
+	holds            int64
+	finalWChanged    []string
 }
 
 // execute runs the case. pol == nil: serial execution following c.Order (or tasks in order).
@@ -777,12 +783,12 @@ func identity(k int) []int {
 // ---------- the reference: the same call, alone, on a freshly loaded Model ----------
 
 type refResult struct {
-	Kind  string
-	Err   string
-	Out   map[string]*val.V
-	Trace []nodeTrace
-	Intro string
-	LoadW map[string]*val.V
+	Kind    string
+	Err     string
+	Out     map[string]*val.V
+	Trace   []nodeTrace
+	Intro   string
+	LoadW   map[string]*val.V
 	LoadErr string
 }
 
@@ -797,7 +803,7 @@ type refCache struct {
 
 // refRequest / refReply: the wire format of `simcheck refcall`.
 type refRequest struct {
-	Bytes  []byte            `json:"bytes"`
+	Bytes   []byte            `json:"bytes"`
 	Inputs  map[string]*val.V `json:"inputs"`
 	Flavour map[string]string `json:"flavour,omitempty"`
 	Fault   *OpFault          `json:"fault,omitempty"`
